@@ -61,7 +61,44 @@ struct FileInner {
     verif: crate::verif::tap::FileTag,
     std_file: StdFile,
     size: AtomicU64,
-    synced_size: AtomicU64
+    synced_size: AtomicU64,
+    /// Offsets of appends whose range is already reserved in `size`, but whose write has not finished yet
+    appends_in_flight: std::sync::Mutex<std::collections::BTreeSet<u64>>,
+}
+
+/// Range reserved for an append. The range counts as written when this value is dropped
+struct AppendReservation {
+    file: Arc<FileInner>,
+    offset: u64,
+    tracked: bool,
+}
+
+impl Drop for AppendReservation {
+    fn drop(&mut self) {
+        if self.tracked {
+            let mut in_flight = self.file.appends_in_flight.lock().expect("appends_in_flight mutex");
+            in_flight.remove(&self.offset);
+        }
+    }
+}
+
+impl FileInner {
+    fn reserve_append(self: &Arc<Self>, len: u64) -> AppendReservation {
+        let mut in_flight = self.appends_in_flight.lock().expect("appends_in_flight mutex");
+        let offset = self.size.fetch_add(len, Ordering::SeqCst);
+        let tracked = len > 0 && in_flight.insert(offset);
+        AppendReservation { file: self.clone(), offset, tracked }
+    }
+
+    /// End of the file prefix in which every reserved append has finished. `size` also covers ranges that are
+    /// reserved by appends which are still running: their bytes are not in the file yet, a sync does not cover them
+    fn written_size(&self) -> u64 {
+        let in_flight = self.appends_in_flight.lock().expect("appends_in_flight mutex");
+        match in_flight.iter().next() {
+            Some(first_unfinished) => *first_unfinished,
+            None => self.size.load(Ordering::SeqCst),
+        }
+    }
 }
 
 #[derive(PartialEq, Eq)]
@@ -90,7 +127,8 @@ impl File {
         let file_inner = self.inner.clone();
         if Self::can_run_inplace(len) {
             Self::inplace_sync_call(move || {
-                let offset = file_inner.size.fetch_add(len, Ordering::SeqCst);
+                let reservation = file_inner.reserve_append(len);
+                let offset = reservation.offset;
                 let (res, data) = c.create(offset);
                 #[cfg(feature = "verif")]
                 let _tap = file_inner.verif.begin(crate::verif::tap::Kind::Write, offset, crate::verif::tap::segs(&res))?;
@@ -99,7 +137,8 @@ impl File {
             })
         } else {
             Self::background_sync_call(move || {
-                let offset = file_inner.size.fetch_add(len, Ordering::SeqCst);
+                let reservation = file_inner.reserve_append(len);
+                let offset = reservation.offset;
                 let (res, data) = c.create(offset);
                 #[cfg(feature = "verif")]
                 let _tap = file_inner.verif.begin(crate::verif::tap::Kind::Write, offset, crate::verif::tap::segs(&res))?;
@@ -124,14 +163,16 @@ impl File {
         let file_inner = self.inner.clone();
         if Self::can_run_inplace(buf.len() as u64) {
             Self::inplace_sync_call(move || {
-                let offset = file_inner.size.fetch_add(buf.len() as u64, Ordering::SeqCst);
+                let reservation = file_inner.reserve_append(buf.len() as u64);
+                let offset = reservation.offset;
                 #[cfg(feature = "verif")]
                 let _tap = file_inner.verif.begin(crate::verif::tap::Kind::Write, offset, vec![buf.clone()])?;
                 file_inner.std_file.write_all_at(&buf, offset)
             })
         } else {
             Self::background_sync_call(move || {
-                let offset = file_inner.size.fetch_add(buf.len() as u64, Ordering::SeqCst);
+                let reservation = file_inner.reserve_append(buf.len() as u64);
+                let offset = reservation.offset;
                 #[cfg(feature = "verif")]
                 let _tap = file_inner.verif.begin(crate::verif::tap::Kind::Write, offset, vec![buf.clone()])?;
                 file_inner.std_file.write_all_at(&buf, offset)
@@ -183,7 +224,8 @@ impl File {
 
     pub(crate) async fn fsyncdata(&self) -> IOResult<()> {
         let file_inner = self.inner.clone();
-        let size = self.size();
+        // Only the bytes of finished appends are in the file when the sync starts
+        let size = self.inner.written_size();
         Self::background_sync_call(
             move || {
                #[cfg(feature = "verif")]
@@ -288,7 +330,8 @@ impl File {
                 verif: crate::verif::tap::FileTag::from_fd(std_file.as_raw_fd()),
                 std_file, 
                 size,
-                synced_size
+                synced_size,
+                appends_in_flight: Default::default(),
             })
         };
         Ok(file)
